@@ -129,6 +129,17 @@ func (v *Version) Compare(other *Version) int {
 		return releaseComparison
 	}
 
+	// PEP 440: a development release of the bare version (X.devN) sorts before every
+	// pre-release of X (1.0.dev1 < 1.0a1)
+	vDevOnly := v.prerelease == "" && v.postrelease == -1 && v.dev != -1
+	otherDevOnly := other.prerelease == "" && other.postrelease == -1 && other.dev != -1
+	if vDevOnly && other.prerelease != "" {
+		return -1
+	}
+	if otherDevOnly && v.prerelease != "" {
+		return 1
+	}
+
 	preComparison := comparePrereleases(v.prerelease, v.preNumber, other.prerelease, other.preNumber)
 	if preComparison != 0 {
 		return preComparison
